@@ -653,6 +653,19 @@ SITES = [
      [("same_info", B), ("lmv", O), ("ts", N)], B, "nat",
      [("std::ptr::eq(&**v.entry_info(), info)", "same_info"), ("v.last_modified()", "lmv")],
      r"remove_if\(&key, \|_, v\| \{ (?P<e>if let Some\(lm\) = .*? else \{ false \}) \}\)"),
+    # when expiry machinery is enabled at all
+    ("Enable", "unsync_has_expiry", "unsync/cache.rs", "has_expiry", 0, "fn",
+     [("ttl", O), ("tti", O)], B, "nat", [("self.time_to_live", "ttl"), ("self.time_to_idle", "tti")]),
+    ("Enable", "sync_has_expiry", "sync/base_cache.rs", "has_expiry", 0, "fn",
+     [("ttl", O), ("tti", O)], B, "nat", [("self.time_to_live", "ttl"), ("self.time_to_idle", "tti")]),
+    ("Enable", "sync_write_order_enabled", "sync/base_cache.rs", "is_write_order_queue_enabled", 0, "fn",
+     [("ttl", O)], B, "nat", [("self.time_to_live", "ttl")]),
+    ("Enable", "sync_evict_expired_needed", "sync/base_cache.rs", "sync", 0, "expr",
+     [("has_expiry", B), ("has_valid_after", B)], B, "nat",
+     [("self.has_expiry()", "has_expiry"), ("self.has_valid_after()", "has_valid_after")],
+     r"if (?P<e>has_expiry \|\| has_valid_after) \{ self\.evict_expired"),
+    ("Enable", "default_weight", "sync/base_cache.rs", "weigh", 0, "expr",
+     [], N, "nat", [], r"unwrap_or\((?P<e>\d+)\)"),
     # housekeeping trigger
     ("Housekeeper", "should_apply", "common/concurrent/housekeeper.rs", "should_apply", 0, "fn",
      [("ch_len", N), ("ch_flush_point", N), ("syncAfter", N), ("now", N)], B, "nat",
